@@ -78,6 +78,8 @@ type Builder struct {
 	NoUnnamedUnexported bool
 	OpenNonComparable bool
 	OpenNestedStale   bool
+	OpenPtrSrcWhole   bool // F-UPDATE-PTRSRC-WHOLE
+	noDot             bool
 	OpenNilPtrSub     bool // F-UPDATE-NILLABLE-CALL
 	noPtrToNamed      bool
 
@@ -352,6 +354,11 @@ func (b *Builder) Pair(depth int) (*spec.T, *spec.T) {
 	case "tptr":
 		b.topLevel = true
 		s, t := b.Pair(depth - 1)
+		if b.noPtrToNamed && nillable(s) {
+			// value -> pointer of a nillable source is assigned unconditionally
+			b.label("excluded:F-UPDATE-NILLABLE-CALL")
+			return s, t
+		}
 		if b.Conv.Settings.SkipCopy && b.O.NoSharedAddr && s.Key_() == t.Key_() && s.K != spec.KBasic {
 			// T -> *T of identical non-basic types under skipCopySameType takes the address
 			// of the source expression (known finding F-SKIPCOPY-INTERIOR-PTR)
@@ -831,7 +838,12 @@ func (b *Builder) fields(depth int, own *model.Method, sd *spec.TypeDecl) ([]spe
 	for i := 0; i < n; i++ {
 		variants := []string{"plain", "plain", "plain", "srconly"}
 		if own != nil {
-			variants = append(variants, "rename", "recase", "nest", "extra-ignore", "extra-missing", "dot", "automap", "recase-exact")
+			variants = append(variants, "rename", "recase", "nest", "extra-ignore", "extra-missing", "automap", "recase-exact")
+			if b.noDot {
+				b.label("excluded:F-UPDATE-PTRSRC-WHOLE")
+			} else {
+				variants = append(variants, "dot")
+			}
 			if b.O.Custom {
 				variants = append(variants, "mapfunc", "mapfunc", "mapfunc-nosource")
 			}
@@ -1285,10 +1297,14 @@ func (b *Builder) UpdateMethod(name string, depth int) *model.Method {
 	if b.OpenNilPtrSub && (m.Settings.ZeroNillable || b.Conv.Settings.ZeroNillable) {
 		b.noPtrToNamed = true
 	}
+	ptrSource := b.coin("update-source-pointer")
+	// `map . F` in an update method with a pointer source uses the pointer where the
+	// struct value is needed (known finding F-UPDATE-PTRSRC-WHOLE)
+	b.noDot = ptrSource && b.OpenPtrSrcWhole
 	s, t := b.structPairFor(m, depth, true)
-	b.inUpdate, b.comparableOnly, b.noPtrToNamed = false, false, false
+	b.inUpdate, b.comparableOnly, b.noPtrToNamed, b.noDot = false, false, false, false
 	srcT := s
-	if b.coin("update-source-pointer") {
+	if ptrSource {
 		srcT = spec.Ptr(s)
 		b.label("update:pointer-source")
 	}
